@@ -92,14 +92,20 @@ func runC08(c c08Case) (string, string) {
 	if c.Kind == "cold" {
 		what = "sub-threshold"
 	}
+	sfx := ""
+	for _, f := range c.A {
+		if f.FFC || f.Reset {
+			sfx = ":with-ffc-or-reset"
+		}
+	}
 	if fmt.Sprint(d1) != fmt.Sprint(d2) {
-		return "C08:" + c.Kind + ":detection-differs", fmt.Sprintf("%+v: streams differing only in %s pixels give detection %v vs %v | A=%s | B=%s", c.Cfg, what, d1, d2, fmtStream(c.A), fmtStream(c.B))
+		return "C08:" + c.Kind + ":detection-differs" + sfx, fmt.Sprintf("%+v: streams differing only in %s pixels give detection %v vs %v | A=%s | B=%s", c.Cfg, what, d1, d2, fmtStream(c.A), fmtStream(c.B))
 	}
 	if fmt.Sprint(s1) != fmt.Sprint(s2) {
-		return "C08:" + c.Kind + ":recording-differs", fmt.Sprintf("%+v: streams differing only in %s pixels give sink traces %v vs %v | A=%s | B=%s", c.Cfg, what, s1, s2, fmtStream(c.A), fmtStream(c.B))
+		return "C08:" + c.Kind + ":recording-differs" + sfx, fmt.Sprintf("%+v: streams differing only in %s pixels give sink traces %v vs %v | A=%s | B=%s", c.Cfg, what, s1, s2, fmtStream(c.A), fmtStream(c.B))
 	}
 	if fmt.Sprint(p1) != fmt.Sprint(p2) {
-		return "C08:" + c.Kind + ":background-or-threshold-differs", fmt.Sprintf("%+v: streams differing only in %s pixels give interior background/threshold %v vs %v | A=%s | B=%s", c.Cfg, what, p1, p2, fmtStream(c.A), fmtStream(c.B))
+		return "C08:" + c.Kind + ":background-or-threshold-differs" + sfx, fmt.Sprintf("%+v: streams differing only in %s pixels give interior background/threshold %v vs %v | A=%s | B=%s", c.Cfg, what, p1, p2, fmtStream(c.A), fmtStream(c.B))
 	}
 	return "", ""
 }
@@ -126,7 +132,7 @@ func cloneStream(fs []DFrame) []DFrame {
 
 func c08Run(r *ev.Run) {
 	L := 3
-	r.Rule = "pairs of streams through the real detector and a real MotionProcessor: base streams = every sequence of 3 frames with one varying interior pixel over 6 boundary values (4 frames thorough), resolutions 5x4/4x5 edge 1 and 6x5 edge 2, fixed threshold (warmer-only x one-diff) and dynamic threshold (min/max unset and set); perturbations: (i) every single border pixel x every frame (and all frames at once) rewritten with {0,1,T,65535}, all border pixels at once; (ii) fixed threshold: every interior pixel at or below T replaced by another value <= T ({0,1,T-1,T}), every frame. Oracle: identical per-frame Detect results, identical sink traces (start/stop positions, written ids, threshold and interior background at each start), identical interior background and threshold after every frame (deep layer). Non-trivial = pair whose base stream has motion."
+	r.Rule = "pairs of streams through the real detector and a real MotionProcessor: base streams = every sequence of 3 frames with one varying interior pixel over 6 boundary values (4 frames thorough), resolutions 5x4/4x5 edge 1 and 6x5 edge 2, fixed threshold (warmer-only x one-diff) and dynamic threshold (min/max unset and set); perturbations: (i) every single border pixel x every frame (and all frames at once) rewritten with {0,1,T,65535}, all border pixels at once; (ii) fixed threshold: every interior pixel at or below T replaced by another value <= T ({0,1,T-1,T}), every frame. Oracle: identical per-frame Detect results, identical sink traces (start/stop positions, written ids, threshold and interior background at each start), identical interior background and threshold after every frame (deep layer). Stage 2: the same oracle on streams of 4 frames carrying every pattern of {normal, inside an FFC period, camera reset before the frame} per frame, one varying interior pixel, border perturbations (single border pixels - quick: five of them - and the whole border, one frame or all frames, values 0 and 65535), dynamic and fixed threshold. Non-trivial = pair whose base stream has motion."
 	if r.Thorough() {
 		L = 4
 	}
@@ -260,6 +266,120 @@ func c08Run(r *ev.Run) {
 			}
 		}
 	})
+	c08Phased(r, cfgs)
+}
+
+// c08Phased: stage 2 - the same relational oracle on streams with FFC periods and camera resets at
+// every position (the code paths that re-seed or replace the background), border perturbations only.
+func c08Phased(r *ev.Run, cfgs []DCfg) {
+	const L = 4
+	vals := []uint16{c07T - 1, c07T + 2*c07Delta + 2}
+	pert := []uint16{0, 65535}
+	if r.Thorough() {
+		vals = []uint16{c07T - 1, c07T + c07Delta + 1, c07T + 2*c07Delta + 2}
+	}
+	r.Bounds["phased_stream_length"] = L
+	r.Bounds["phased_flag_patterns"] = 81
+	type job struct {
+		cfg   DCfg
+		flags [L]int // 0 normal, 1 inside an FFC period, 2 camera reset before the frame
+	}
+	var jobs []job
+	for _, c := range cfgs {
+		if !c.Dynamic && (c.OneDiff || c.Warmer) {
+			continue // one fixed-threshold configuration per resolution is enough here
+		}
+		for n := 0; n < 81; n++ {
+			var fl [L]int
+			for k, m := 0, n; k < L; k, m = k+1, m/3 {
+				fl[k] = m % 3
+			}
+			jobs = append(jobs, job{c, fl})
+		}
+	}
+	var pairs, motionPairs int64
+	r.Parallel(len(jobs), func(w *ev.Worker, i int) {
+		j := jobs[i]
+		c := j.cfg
+		ip := interiorPixels(c)
+		vp := ip[len(ip)-1] // the varying pixel: the last interior pixel
+		var border [][2]int
+		for y := 0; y < c.ResY; y++ {
+			for x := 0; x < c.ResX; x++ {
+				if !c.interior(y, x) {
+					border = append(border, [2]int{y, x})
+				}
+			}
+		}
+		sel := border
+		if !r.Thorough() {
+			// quick: the four corners' neighbours on each side and one corner
+			sel = [][2]int{{0, c.ResX / 2}, {c.ResY / 2, 0}, {c.ResY / 2, c.ResX - 1}, {c.ResY - 1, c.ResX / 2}, {0, 0}}
+		}
+		idx := make([]int, L)
+		base := make([]DFrame, L)
+		for {
+			for k := 0; k < L; k++ {
+				base[k] = DFrame{Pix: grid(c, c07T-2), FFC: j.flags[k] == 1, Reset: j.flags[k] == 2}
+				base[k].Pix[c.Edge][c.Edge] = c07T + 3
+				base[k].Pix[vp[0]][vp[1]] = vals[idx[k]]
+			}
+			det := detectStream(c, base)
+			bm := false
+			for _, v := range det {
+				bm = bm || v
+			}
+			w.Outcome(ev.Hash("phased", c, j.flags, det))
+			try := func(b []DFrame) {
+				cc := c08Case{Cfg: c, A: base, B: b, Kind: "border"}
+				sig, msg := runC08(cc)
+				w.Evaluations++
+				w.Transitions += int64(2 * L)
+				w.States++
+				if bm {
+					w.Nontrivial++
+				}
+				if sig != "" {
+					w.Violate(sig, msg, c08Case{Cfg: c, A: cloneStream(base), B: cloneStream(b), Kind: "border"}, L)
+				}
+			}
+			for _, v := range pert {
+				for fr := 0; fr <= L; fr++ { // fr == L: all frames
+					for _, bp := range sel {
+						b := cloneStream(base)
+						for k := range b {
+							if fr == L || fr == k {
+								b[k].Pix[bp[0]][bp[1]] = v
+							}
+						}
+						try(b)
+					}
+					b := cloneStream(base)
+					for k := range b {
+						if fr == L || fr == k {
+							for _, bp := range border {
+								b[k].Pix[bp[0]][bp[1]] = v
+							}
+						}
+					}
+					try(b)
+				}
+			}
+			k := 0
+			for k < L {
+				idx[k]++
+				if idx[k] < len(vals) {
+					break
+				}
+				idx[k] = 0
+				k++
+			}
+			if k == L {
+				break
+			}
+		}
+	})
+	_, _ = pairs, motionPairs
 }
 
 func init() { register(&Check{Property: "C08", Run: c08Run, Replay: c08Replay}) }
